@@ -21,7 +21,18 @@ LEVEL_TEXT = ("PARTIAL. Proved for all sizes: (C02_qr_gray, C02_qr_sandwich, C02
               "(via C13_nolast), and diag(u0, u1.Zh).(CZ.CS).diag(v0,v1) = X from the cossin specification, Zh being exactly the "
               "negation of the right half of the columns; (C02_demux, C02_demux_rz) diag(U1,U2) = (V+V)(D+D^dagger)(W+W) from the "
               "eigen specification, W unitary, and UCRZ(-2 arg d) multiplies by d_j / d_j^-1 per control index; (C02_iso_columns) by "
-              "induction over the isometry levels the leading columns do not depend on the dropped blocks. Tied: the recursion "
+              "induction over the isometry levels the leading columns do not depend on the dropped blocks; WHOLE RECURSION "
+              "(C02_matrix_semantics, C02_middle_placed, C02_csd_node, C02_qsd_full, C02_qsd_iso_full): with 'a gate list denotes "
+              "the matrix M on wires 0..n-1, little-endian, identity elsewhere, on every state' (applyMat, shown to compose: "
+              "product / block-diagonal / M+M one level up), the middle gate list on the wires the model really uses, "
+              "place(ucr(RY,2 theta,CZ,False),[n-1]+range(n-1)), denotes CZ(n-2,n-1).CS(theta) for every n, and by induction over "
+              "the recursion, for every n and iso, IF the tape is the record of a run in which every cossin / _compute_gates "
+              "output meets its specification and every leaf UnitaryGate / UCRZ denotes its matrix / multiplexer (QsdSynth), "
+              "THEN the model's whole buildUnitary-qsd gate list consumes exactly the tape and denotes X (iso=0) resp. a matrix "
+              "with X's leading columns, acting like X on every state whose top iso wires read 0; (C02_csd_full) the same for "
+              "buildUnitary-csd: lists of 2^(n-s) blocks denote the multiplexed matrix (block number = number on wires s..n-1), "
+              "one cossin per block, UCRYGate(2 theta) on [s-1]+(0..s-2, s..n-1) proved to read the block from the wires above "
+              "and the diagonal index from the wires below its target, UCGate leaves by specification. Tied: the recursion "
               "shape / wires / angle vectors (2 theta through ucr, -2 arg d) / kernel-call count / sign-flipped block of "
               "build_unitary for n<=4 (quick) / 5 (thorough), qsd and csd, every iso, eight input families; QR x/mcx/mcmt lists "
               "for ALL (row, col), n<=4 / 5, and whole QR circuits n<=3. Tested only: Operator(unitary(U, dec, iso, a2)) vs U "
@@ -33,7 +44,8 @@ LEVEL_NOTE = ("Trusted: Lean kernel; scipy cossin, numpy eig/svd (_closest_unita
 LEAN_TARGETS = ["QclibModel.Props.C02"]
 THEOREMS = ["Qclib.C02_qr_gray", "Qclib.C02_qr_sandwich", "Qclib.C02_qr_undo", "Qclib.C02_qr_orientation",
             "Qclib.C02_csd_nolast", "Qclib.C02_csd_step", "Qclib.C02_csd_negRightHalf", "Qclib.C02_demux",
-            "Qclib.C02_demux_rz", "Qclib.C02_iso_columns"]
+            "Qclib.C02_demux_rz", "Qclib.C02_iso_columns", "Qclib.C02_matrix_semantics", "Qclib.C02_middle_placed",
+            "Qclib.C02_csd_node", "Qclib.C02_qsd_full", "Qclib.C02_qsd_iso_full", "Qclib.C02_csd_full"]
 TRUSTED = [
     "scipy.linalg.cossin(X, separate=True) returns (u1,u2), theta, (v1h,v2h) with X = diag(u1,u2) [[C,-S],[S,C]] diag(v1h,v2h), "
     "blocks unitary (re-checked numerically on every call)",
